@@ -21,7 +21,8 @@ RE_ASSIGN_OP = re.compile(r"=")  # TODO: scan until ch?
 # first letters of a longer identifier such as `POPCORN`.
 RE_DROP = re.compile(r"DROP(?![_a-zA-Z0-9])")
 RE_GRAMMAR_DOC = re.compile(r"//!")
-RE_IDENTIFIER = re.compile(r"[_a-zA-Z][_a-zA-Z0-9]*")
+# `identifier = @{ !"PUSH" ~ ... }`: no identifier starts with PUSH.
+RE_IDENTIFIER = re.compile(r"(?!PUSH)[_a-zA-Z][_a-zA-Z0-9]*")
 RE_INTEGER = re.compile(r"[0-9]+|-0*[1-9][0-9]*")
 RE_MODIFIER = re.compile(r"[_@\$!]")
 RE_NEWLINE = re.compile(r"\r?\n")
